@@ -123,6 +123,10 @@ class Runner:
         a, b = kwargs.get("a"), kwargs.get("b")
         if a is None or b is None or not isinstance(imm, bool):
             raise AnalysisError(f"cast_operands called with unsupported argument shape: {args} {list(kwargs)}")
+        ta = a.fields.get("value_type") if isinstance(a, AObj) else None
+        tb = b.fields.get("value_type") if isinstance(b, AObj) else None
+        if ta is not None and ta is tb:
+            return (a, b)  # one and the same type object: provably equal types, nothing to convert
         if imm:
             return (a, self.pure(f"Conv(type({self.lab(a)}),{self.lab(b)})"))
         c = f"Common({self.lab(a)},{self.lab(b)})"
